@@ -234,7 +234,6 @@ func init() {
 	generators["mutants"] = genMutant
 }
 
-
 // weirdpairs enumerates (not samples) every ordered pair of the binding names under every binary construct.
 var pairForms = []string{
 	"{%% if %s contains %s %%}y{%% endif %%}", "{%% if %s == %s %%}y{%% endif %%}", "{%% if %s < %s %%}y{%% endif %%}", "{{ %s[%s] }}",
